@@ -1,4 +1,5 @@
 import Gpc.Proofs.Printf
+import Gpc.Proofs.Print
 /-!
 # C09 — formatted output equals the C standard's
 
@@ -163,6 +164,44 @@ theorem float_text_partial (s : Spec) (bits : Nat)
   cases hsp : (floatParts s bits).2.2 with
   | true => simp [hsp, PF.planText, PF.Emit.text]
   | false => simp [hsp, h hsp]
+
+/-- **C09, print family.**  Each argument of the type-directed print calls is rendered as its default
+conversion: integers as `%d` / `%u` of their width, floating point as `%g`, characters as `%c`,
+C strings as `%s` (booleans are `true` / `false`, library strings verbatim, pointers `%p`-like). -/
+theorem print_default_conversions (raw bits : Nat) (str : Bytes) :
+    valText .i32 (.int raw) = formatOne { conv := 'd' } (.int raw) ∧
+    valText .i64 (.int raw) = formatOne { conv := 'd', len := .ll } (.int raw) ∧
+    valText .u32 (.int raw) = formatOne { conv := 'u' } (.int raw) ∧
+    valText .u64 (.int raw) = formatOne { conv := 'u', len := .ll } (.int raw) ∧
+    valText .dbl (.dbl bits) = formatOne { conv := 'g' } (.dbl bits) ∧
+    valText .chr (.int raw) = formatOne { conv := 'c' } (.int raw) ∧
+    valText .cstr (.str str) = formatOne { conv := 's' } (.str str) ∧
+    valText .ptr (.int raw) = formatOne { conv := 'p' } (.int raw) := by
+  refine ⟨rfl, rfl, ?_, ?_, rfl, ?_, ?_, ?_⟩
+  · simp [valText, formatOne, fmtUnsigned, unsignedArg, LenMod.bits, precDigits, padField]
+  · simp [valText, formatOne, fmtUnsigned, unsignedArg, LenMod.bits, precDigits, padField]
+  · simp [valText, formatOne, padField]
+  · simp [valText, formatOne, padField, strArg]
+  · have hn : ascii "(nil)" = [40, 110, 105, 108, 41] := by decide
+    simp [valText, formatOne, padField, hn]
+
+/-- **C09, print family, text and return value.**  For every list of objects with a defined text `t`,
+the print call writes `t` into a destination that is large enough and returns its length. -/
+theorem print_writes_text (objs : List Obj) (t dest : Bytes)
+    (ht : printModelText (objs.length + 1) objs = some t) (hroom : t.length ≤ dest.length) :
+    ∃ p, printObjs (objs.length + 1) { data := dest, length := 0 } objs false = some (some p) ∧
+      p.length = t.length ∧ p.data.take t.length = t := by
+  have h0 : Agrees ({ data := dest, length := 0 } : PF) [] := ⟨rfl, fun i _ hi => by simp at hi⟩
+  obtain ⟨p, e, c, a⟩ := printObjs_ok (objs.length + 1) _ [] t objs h0 ht
+  simp only [List.nil_append] at a
+  refine ⟨p, e, a.1, ?_⟩
+  apply List.ext_getElem?
+  intro i
+  rw [List.getElem?_take]
+  have hc : p.cap = dest.length := c
+  split
+  · rename_i hi; exact a.2 i (by omega) hi
+  · rename_i hi; symm; exact List.getElem?_eq_none (by omega)
 
 /-! ## non-vacuity -/
 
